@@ -39,7 +39,7 @@ def api_case(seed, profile=None, options=None, sm=None):
     if rng.random() < 0.15:
         opts["includeEmbedded"] = False
     if rng.random() < 0.3:
-        opts["idPrefix"] = rng.choice(["", "doc-", "p<1>", "x y", "é"])
+        opts["idPrefix"] = rng.choice(["", "doc-", "p<1>", "x y", "é", "{0}:", "a{b}", "}{", "%s-%d", "\\g<0>", "&amp;", "$1"])
     if rng.random() < 0.3:
         opts["ignoreEmpty"] = False
     if rng.random() < pf["markdown"]:
